@@ -148,6 +148,28 @@ macro_rules! rot_suite {
             logic::rot_entries::<$T>(cx!(t, m4n), "rot/inverse", "Mat4::from_quat(q).inverse()", &block9(&m4.inverse().to_cols_array()), rt, 2.0, eq, ctx)?;
             logic::rot_entries::<$T>(cx!(t, an), "rot/inverse", "Affine3A::from_quat(q).inverse()", &block9a(&a.inverse().to_cols_array()), rt, 2.0, eq, ctx)?;
 
+            // a quaternion that is unit by glam's own test (`is_normalized`, 2e-4 on |q|^2) but not to rounding, as a literal
+            // with four decimals or a long product is: every from_quat form accepts it and they agree with each other
+            {
+                let h = (c.v[0].to_bits() as u64 ^ (c.v[1].to_bits() as u64).rotate_left(17)) as u32;
+                let mag = 1e-6 * (90.0f64).powf((h >> 8 & 0xffff) as f64 / 65535.0); // 1e-6 .. 9e-5
+                let k = (1.0 + if h & 1 == 0 { mag } else { -mag }) as $T;
+                let qa = q.to_array();
+                let qn = $Q::from_xyzw(qa[0] * k, qa[1] * k, qa[2] * k, qa[3] * k);
+                if qn.is_normalized() {
+                    let a3 = $M3::from_quat(qn).to_cols_array();
+                    let a4 = block9(&$M4::from_quat(qn).to_cols_array());
+                    let aa = block9a(&$A::from_quat(qn).to_cols_array());
+                    for i in 0..9 {
+                        let (x, y, z) = (a3[i] as f64, a4[i] as f64, aa[i] as f64);
+                        let tol = 8.0 * <$T>::EPSILON as f64;
+                        if !((x - y).abs() <= tol && (x - z).abs() <= tol) {
+                            return Err(cx!(t, m3n).fail("rot/nearly-unit", format!("from_quat of a quaternion with |q|^2 - 1 = {:e} (passes is_normalized): Mat3 / Mat4 / Affine3A entry {i} = {:e} / {:e} / {:e}; {}", (qn.length_squared() - 1.0) as f64, x, y, z, ctx())));
+                        }
+                    }
+                    t.class("nearly-unit quaternion accepted by every from_quat");
+                }
+            }
             rot3a!($T, t, c, q, p, r, rqp, rt, eq, ec, ctx);
             qcast!($T, t, c, q, ctx);
             Ok(())
@@ -895,6 +917,40 @@ pub fn check_identity(w: &[u64], t: &mut Tally) -> Result<(), Fail> {
         return Ok(());
     }
     let i = w[1] as usize;
+    if w[0] == 2 {
+        // the composition of no transforms is the identity in every representation (so that converting an empty
+        // composite commutes with composing the converted, empty, list)
+        macro_rules! empty {
+            ($k:expr, $T:ident, [$($byval:tt)*]) => {
+                if i == $k {
+                    let l: [$T; 0] = [];
+                    let by_ref: $T = l.iter().product();
+                    if by_ref != $T::IDENTITY {
+                        return Err(cx!(t, stringify!($T)).fail("empty product", format!("[].iter().product::<{}>() is {:?}, not the identity", stringify!($T), by_ref)));
+                    }
+                    $( let _ = stringify!($byval);
+                    let by_val: $T = l.iter().copied().product();
+                    if by_val != $T::IDENTITY {
+                        return Err(cx!(t, stringify!($T)).fail("empty product", format!("[].into_iter().product::<{}>() is {:?}, not the identity", stringify!($T), by_val)));
+                    } )*
+                }
+            };
+        }
+        empty!(0, Quat, [v]);
+        empty!(1, DQuat, [v]);
+        empty!(2, Mat2, [v]);
+        empty!(3, Mat3, [v]);
+        empty!(4, Mat3A, [v]);
+        empty!(5, Mat4, [v]);
+        empty!(6, DMat2, [v]);
+        empty!(7, DMat3, [v]);
+        empty!(8, DMat4, [v]);
+        empty!(9, Affine2, []);
+        empty!(10, Affine3A, []);
+        empty!(11, DAffine2, []);
+        empty!(12, DAffine3, []);
+        return Ok(());
+    }
     let (name, got, want, from) = if w[0] == 0 {
         if i >= EDGES3.len() {
             return Ok(());
@@ -951,6 +1007,12 @@ pub fn subs<'a>(_args: &Args) -> Vec<SubCheck<'a>> {
             for i in 0..EDGES2.len() {
                 n += 1;
                 if !env.direct(&[1, i as u64], &check_identity) {
+                    return;
+                }
+            }
+            for i in 0..13u64 {
+                n += 1;
+                if !env.direct(&[2, i], &check_identity) {
                     return;
                 }
             }
